@@ -499,3 +499,76 @@ def grouped_runs(ctx, node_fi, rule):
         ctx.ob(rule, node_fi, call, ok, 'groupby(%s, key: %s) partitions its input only if equal keys are adjacent; the input is sorted by `%s`: %s'
                % (U(X)[:30], g.replace('_e', 'e'), s.replace('_e', 'e'), why), construct='grouping of `%s`' % U(X)[:40])
     return n
+
+
+def measurement_keys_kept(ctx, node_fi, rule):
+    """A measurement (Q, y, noise, proj) states y ~ Q @ marginal(proj) with the cells of the marginal laid out in the attribute order GIVEN by
+    proj.  Code that re-packs the measurements may change the TYPE of proj (tuple(proj), a bare name wrapped as (proj,)) but not its ORDER:
+    `domain.canonical(proj)`, `sorted(proj)`, a set - applied to proj alone - leave Q and y in the old layout, and the loss then compares y
+    with the cells of a transposed table.  One obligation per re-packed proj (comprehension over the measurements, or a 4-tuple stored /
+    appended inside a loop over them); an expression this rule cannot classify is an analysis error."""
+    raw = getattr(node_fi, 'original', node_fi)
+    helpers = {}
+    for d in ast.walk(raw.node):
+        if isinstance(d, ast.FunctionDef) and d is not raw.node and len(d.args.args) == 1 and len(d.body) == 1 and isinstance(d.body[0], ast.Return) \
+                and d.body[0].value is not None:
+            helpers[d.name] = (d.args.args[0].arg, d.body[0].value)
+        if isinstance(d, ast.Assign) and len(d.targets) == 1 and isinstance(d.targets[0], ast.Name) and isinstance(d.value, ast.Lambda) and len(d.value.args.args) == 1:
+            helpers[d.targets[0].id] = (d.value.args.args[0].arg, d.value.body)
+
+    def verdict(e, p, depth=0):
+        # -> (True, '') order kept | (False, why) reordered | None unknown
+        if isinstance(e, ast.Name) and e.id == p:
+            return True, ''
+        if isinstance(e, ast.Tuple) and len(e.elts) == 1:
+            return verdict(e.elts[0], p, depth)
+        if isinstance(e, ast.IfExp):
+            a, b = verdict(e.body, p, depth), verdict(e.orelse, p, depth)
+            if a is None or b is None:
+                return None
+            return (True, '') if a[0] and b[0] else (a if not a[0] else b)
+        if isinstance(e, ast.Call) and len(e.args) == 1 and not e.keywords:
+            f = U(e.func)
+            if f in ('tuple', 'list'):
+                return verdict(e.args[0], p, depth)
+            if f in helpers and depth < 3:
+                hp, hb = helpers[f]
+                inner = verdict(e.args[0], p, depth)
+                if inner is None or not inner[0]:
+                    return inner
+                return verdict(hb, hp, depth + 1)
+            if f.endswith('.canonical') or f in ('sorted', 'set', 'frozenset', 'reversed') or f.endswith('.project'):
+                inner = verdict(e.args[0], p, depth)
+                if inner is not None:
+                    return False, '`%s` puts the attributes into another order (Q and y keep the old one)' % U(e)[:60]
+        if isinstance(e, ast.Subscript) and U(e.slice).replace(' ', '') == '::-1' and verdict(e.value, p, depth) is not None:
+            return False, '`%s` reverses the attributes (Q and y keep the old order)' % U(e)[:60]
+        return None
+    n = 0
+    sites = []
+    for c in ast.walk(raw.node):
+        if isinstance(c, (ast.ListComp, ast.GeneratorExp)) and len(c.generators) == 1 and isinstance(c.generators[0].target, ast.Tuple) \
+                and len(c.generators[0].target.elts) == 4 and isinstance(c.elt, ast.Tuple) and len(c.elt.elts) == 4 \
+                and all(isinstance(x, ast.Name) for x in c.generators[0].target.elts):
+            sites.append((c, c.generators[0].target.elts[3].id, c.elt.elts[3]))
+        if isinstance(c, ast.For) and isinstance(c.target, ast.Tuple) and len(c.target.elts) == 4 and all(isinstance(x, ast.Name) for x in c.target.elts):
+            p = c.target.elts[3].id
+            q3 = [x.id for x in c.target.elts[:3]]
+            for t in ast.walk(c):
+                if isinstance(t, ast.Tuple) and len(t.elts) == 4 and isinstance(t.ctx, ast.Load) and [U(x) for x in t.elts[:3]] == q3 and t is not c.target:
+                    # proj re-bound inside the loop body before the tuple is built?
+                    rebinds = [a for a in ast.walk(c) if isinstance(a, ast.Assign) and len(a.targets) == 1 and U(a.targets[0]) == p]
+                    e = t.elts[3]
+                    if rebinds and isinstance(e, ast.Name) and e.id == p and len(rebinds) == 1:
+                        e = rebinds[0].value
+                    sites.append((t, p, e))
+    for node, p, e in sites:
+        if not any(isinstance(x, ast.Name) and x.id == p for x in ast.walk(e)):
+            continue          # another quantity in that position: not a re-packed proj
+        v = verdict(e, p)
+        if v is None:
+            raise AnalysisError('%s: the measurement key `%s` is re-packed as `%s`, which this analysis cannot classify' % (raw.qualname, p, U(e)[:60]))
+        n += 1
+        ctx.ob(rule, node_fi, node, v[0], 'the attribute order of a measurement\'s `%s` is the layout of its Q and y and must be kept when the measurement is '
+               're-packed; `%s`%s' % (p, U(e)[:60], '' if v[0] else ': ' + v[1]), construct='re-packed measurement key `%s`' % U(e)[:50])
+    return n
